@@ -25,6 +25,14 @@ Inductive rppc :=
 Inductive rcpc :=
 | RCNotStarted | RCBegin | RCWait | RCWrite | RCPostTrash | RCExitPost | RCFlush | RCEnd | RCDone.
 
+(* one call on the stream: write(data, len) of arbitrary size, or an in-place formatted value
+   (operator<< of a number / put): Ensure(amount) then `bytes` (at most `amount` of them) at current_ *)
+Inductive rop :=
+| RWrite (bytes : list Z)
+| RPut (amount : nat) (bytes : list Z).
+
+Definition rop_bytes (o : rop) : list Z := match o with RWrite b => b | RPut _ b => b end.
+
 Record rstate := mkR {
   r_out : nat;                 (* semaphore output_ : filled blocks *)
   r_trash : nat;               (* semaphore trash_  : free blocks *)
@@ -35,14 +43,18 @@ Record rstate := mkR {
   r_cur : nat;                 (* current_ - lease_.Base() *)
   r_ppc : rppc;
   r_cpc : rcpc;
-  r_prog : list (list Z);      (* write() calls not yet started *)
+  r_prog : list rop;           (* calls not yet started *)
   r_pend : list Z;             (* rest of the write() in progress *)
   r_file : list Z;             (* bytes handed to writer_.write, in order *)
   r_wsizes : list nat;         (* sizes of the writer_.write calls, newest first *)
-  r_flushes : nat }.
+  r_flushes : nat;
+  (* auxiliary (history) variables: never read by a step, only used to state invariants *)
+  r_pa : nat;                  (* number of times the owner lease advanced (SuccessNext) *)
+  r_ca : nat;                  (* number of times the writer lease advanced *)
+  r_hist : list (list Z) }.    (* content (first `size` bytes) of every block at the moment the owner left it *)
 
-Definition ring_init (out0 trash0 : nat) (bsize : nat) (prog : list (list Z)) : rstate :=
-  mkR out0 trash0 (fun _ => []) (fun _ => bsize) 0 0 0 RPCtorWait RCNotStarted prog [] [] [] 0.
+Definition ring_init (out0 trash0 : nat) (bsize : nat) (prog : list rop) : rstate :=
+  mkR out0 trash0 (fun _ => []) (fun _ => bsize) 0 0 0 RPCtorWait RCNotStarted prog [] [] [] 0 0 0 [].
 
 Section Ring.
   Variables K B : nat.
@@ -52,27 +64,36 @@ Section Ring.
   Definition r_loop_test (cur : nat) (pend : list Z) : rppc :=
     if Nat.ltb B (cur + length pend) then RPFill else RPRest.
 
-  Definition r_set_p (s : rstate) (data : nat -> list Z) (size : nat -> nat) (pi cur : nat) (pc : rppc)
-             (prog : list (list Z)) (pend : list Z) : rstate :=
-    mkR (r_out s) (r_trash s) data size pi (r_ci s) cur pc (r_cpc s) prog pend (r_file s) (r_wsizes s) (r_flushes s).
+  (* adv = the lease advanced to the next block in this step *)
+  Definition r_set_p (s : rstate) (adv : bool) (data : nat -> list Z) (size : nat -> nat) (cur : nat) (pc : rppc)
+             (prog : list rop) (pend : list Z) : rstate :=
+    mkR (r_out s) (r_trash s) data size (if adv then r_next (r_pi s) else r_pi s) (r_ci s) cur pc (r_cpc s) prog pend
+        (r_file s) (r_wsizes s) (r_flushes s) (if adv then S (r_pa s) else r_pa s) (r_ca s)
+        (if adv then r_hist s ++ [firstn (size (r_pi s)) (data (r_pi s))] else r_hist s).
 
   (* the destructor up to its first scheduling point: SpillBuffer, or the poison block *)
   Definition r_dtor (s : rstate) (data : nat -> list Z) (cur : nat) : rstate :=
     if Nat.eqb cur 0 then
-      r_set_p s data (upd (r_size s) (r_pi s) 0) (r_next (r_pi s)) cur RPPoisonPost [] []
+      r_set_p s true data (upd (r_size s) (r_pi s) 0) cur RPPoisonPost [] []
     else
-      r_set_p s data (upd (r_size s) (r_pi s) cur) (r_next (r_pi s)) cur (RPSpillPost true) [] [].
+      r_set_p s true data (upd (r_size s) (r_pi s) cur) cur (RPSpillPost true) [] [].
 
   (* after a write() returned: start the next write() or the destructor *)
   Definition r_next_write (s : rstate) (data : nat -> list Z) (cur : nat) : rstate :=
     match r_prog s with
-    | w :: rest => r_set_p s data (r_size s) (r_pi s) cur (r_loop_test cur w) rest w
+    | RWrite w :: rest => r_set_p s false data (r_size s) cur (r_loop_test cur w) rest w
+    | RPut amount w :: rest =>
+      (* Ensure(amount): SpillBuffer() if the value might not fit (a block that is NOT full is handed over);
+         then the bytes are stored at current_ (scheduling point [yrest] of the hook in Ensure) *)
+      if Nat.ltb B (cur + amount) && negb (Nat.eqb cur 0) then
+        r_set_p s true data (upd (r_size s) (r_pi s) cur) cur (RPSpillPost false) rest w
+      else r_set_p s false data (r_size s) cur RPRest rest w
     | [] => r_dtor s data cur
     end.
 
   Definition r_set_sem (s : rstate) (out trash : nat) (pc : rppc) : rstate :=
     mkR out trash (r_data s) (r_size s) (r_pi s) (r_ci s) (r_cur s) pc (r_cpc s) (r_prog s) (r_pend s)
-        (r_file s) (r_wsizes s) (r_flushes s).
+        (r_file s) (r_wsizes s) (r_flushes s) (r_pa s) (r_ca s) (r_hist s).
 
   Definition ring_step_owner (s : rstate) : option rstate :=
     match r_ppc s with
@@ -80,7 +101,7 @@ Section Ring.
       match r_trash s with 0 => None | S t => Some (r_set_sem s (r_out s) t RPSpawn) end
     | RPSpawn =>
       let s1 := mkR (r_out s) (r_trash s) (r_data s) (r_size s) (r_pi s) (r_ci s) (r_cur s) (r_ppc s) RCBegin
-                    (r_prog s) (r_pend s) (r_file s) (r_wsizes s) (r_flushes s) in
+                    (r_prog s) (r_pend s) (r_file s) (r_wsizes s) (r_flushes s) (r_pa s) (r_ca s) (r_hist s) in
       Some (r_next_write s1 (r_data s) (r_cur s))
     | RPFill =>
       let k := B - r_cur s in
@@ -88,9 +109,9 @@ Section Ring.
       let pend := skipn k (r_pend s) in
       (* current_ = end_; SpillBuffer *)
       if Nat.eqb B 0 then
-        Some (r_set_p s data (r_size s) (r_pi s) B (r_loop_test B pend) (r_prog s) pend)
+        Some (r_set_p s false data (r_size s) B (r_loop_test B pend) (r_prog s) pend)
       else
-        Some (r_set_p s data (upd (r_size s) (r_pi s) B) (r_next (r_pi s)) B (RPSpillPost false) (r_prog s) pend)
+        Some (r_set_p s true data (upd (r_size s) (r_pi s) B) B (RPSpillPost false) (r_prog s) pend)
     | RPRest =>
       let data := upd (r_data s) (r_pi s) (firstn (r_cur s) (r_data s (r_pi s)) ++ r_pend s) in
       Some (r_next_write s data (r_cur s + length (r_pend s)))
@@ -101,9 +122,9 @@ Section Ring.
       | S t =>
         let s1 := r_set_sem s (r_out s) t (r_ppc s) in
         if d then
-          Some (r_set_p s1 (r_data s) (upd (r_size s) (r_pi s) 0) (r_next (r_pi s)) 0 RPPoisonPost [] [])
+          Some (r_set_p s1 true (r_data s) (upd (r_size s) (r_pi s) 0) 0 RPPoisonPost [] [])
         else
-          Some (r_set_p s1 (r_data s) (r_size s) (r_pi s) 0 (r_loop_test 0 (r_pend s)) (r_prog s) (r_pend s))
+          Some (r_set_p s1 false (r_data s) (r_size s) 0 (r_loop_test 0 (r_pend s)) (r_prog s) (r_pend s))
       end
     | RPPoisonPost => Some (r_set_sem s (S (r_out s)) (r_trash s) RPPoisonWait)
     | RPPoisonWait =>
@@ -117,28 +138,29 @@ Section Ring.
     | RPDone => None
     end.
 
-  Definition r_set_c (s : rstate) (out trash ci : nat) (pc : rcpc) (file : list Z) (ws : list nat) (fl : nat) : rstate :=
-    mkR out trash (r_data s) (r_size s) (r_pi s) ci (r_cur s) (r_ppc s) pc (r_prog s) (r_pend s) file ws fl.
+  Definition r_set_c (s : rstate) (out trash : nat) (adv : bool) (pc : rcpc) (file : list Z) (ws : list nat) (fl : nat) : rstate :=
+    mkR out trash (r_data s) (r_size s) (r_pi s) (if adv then r_next (r_ci s) else r_ci s) (r_cur s) (r_ppc s) pc (r_prog s) (r_pend s)
+        file ws fl (r_pa s) (if adv then S (r_ca s) else r_ca s) (r_hist s).
 
   Definition ring_step_writer (s : rstate) : option rstate :=
     match r_cpc s with
     | RCNotStarted => None
-    | RCBegin => Some (r_set_c s (r_out s) (r_trash s) (r_ci s) RCWait (r_file s) (r_wsizes s) (r_flushes s))
+    | RCBegin => Some (r_set_c s (r_out s) (r_trash s) false RCWait (r_file s) (r_wsizes s) (r_flushes s))
     | RCWait =>
       match r_out s with
       | 0 => None
       | S o =>
         let pc := if Nat.eqb (r_size s (r_ci s)) 0 then RCExitPost else RCWrite in
-        Some (r_set_c s o (r_trash s) (r_ci s) pc (r_file s) (r_wsizes s) (r_flushes s))
+        Some (r_set_c s o (r_trash s) false pc (r_file s) (r_wsizes s) (r_flushes s))
       end
     | RCWrite =>
       let sz := r_size s (r_ci s) in
-      Some (r_set_c s (r_out s) (r_trash s) (r_next (r_ci s)) RCPostTrash
+      Some (r_set_c s (r_out s) (r_trash s) true RCPostTrash
                     (r_file s ++ firstn sz (r_data s (r_ci s))) (sz :: r_wsizes s) (r_flushes s))
-    | RCPostTrash => Some (r_set_c s (r_out s) (S (r_trash s)) (r_ci s) RCWait (r_file s) (r_wsizes s) (r_flushes s))
-    | RCExitPost => Some (r_set_c s (S (r_out s)) (r_trash s) (r_ci s) RCFlush (r_file s) (r_wsizes s) (r_flushes s))
-    | RCFlush => Some (r_set_c s (r_out s) (r_trash s) (r_ci s) RCEnd (r_file s) (r_wsizes s) (S (r_flushes s)))
-    | RCEnd => Some (r_set_c s (r_out s) (r_trash s) (r_ci s) RCDone (r_file s) (r_wsizes s) (r_flushes s))
+    | RCPostTrash => Some (r_set_c s (r_out s) (S (r_trash s)) false RCWait (r_file s) (r_wsizes s) (r_flushes s))
+    | RCExitPost => Some (r_set_c s (S (r_out s)) (r_trash s) false RCFlush (r_file s) (r_wsizes s) (r_flushes s))
+    | RCFlush => Some (r_set_c s (r_out s) (r_trash s) false RCEnd (r_file s) (r_wsizes s) (S (r_flushes s)))
+    | RCEnd => Some (r_set_c s (r_out s) (r_trash s) false RCDone (r_file s) (r_wsizes s) (r_flushes s))
     | RCDone => None
     end.
 
